@@ -16,6 +16,7 @@ def resultOf (conn : Nat) (tok : String) : Option String :=
   let body := (tok.drop 1).toString
   let get (k : String) : String := "b" ++ toHex (bytesOf "v:" ++ keyOf conn k)
   if c == 'g' then some (get body)
+  else if c == 'a' then some ("b" ++ toHex (bytesOf "v:ASK-" ++ keyOf conn body))   -- served by the node the ASK points at
   else if c == 'e' then some ("e" ++ toHex (bytesOf "ERR no ERR-" ++ keyOf conn body))
   else if c == 's' then some ("s" ++ toHex (bytesOf "OK"))
   else if c == 'M' then some ("[" ++ ",".intercalate ((body.splitOn ".").map get) ++ "]")
